@@ -267,7 +267,7 @@ C17_SPECS["uclchem"]["files"] = {"net.ucl": [l.replace("HCL", "HCl").replace(",C
 def oracle_c17(tier, seed):
     viol, cases = [], 0
     seeds = ["0", "1", "7"] if tier == "quick" else ["0", "1", "2", "3", "7", "11", "42", "1234"]
-    preludes = [[], ["custom-elements"], ["krome-directives"], ["binding-energies"], ["failed-krome", "krome-directives"]]
+    preludes = [[], ["custom-elements"], ["krome-directives"], ["binding-energies"], ["failed-krome", "krome-directives"], ["failed-krome"]]
     for label, base in C17_SPECS.items():
         ref = None
         for hs in seeds:
@@ -298,7 +298,7 @@ def oracle_c17(tier, seed):
                 finally:
                     shutil.rmtree(tmp, ignore_errors=True)
     return {"cases": cases, "distinct": cases, "violations": viol, "samples": [{"seeds": seeds, "preludes": preludes}],
-            "bound": f"3 networks x {len(seeds)} hash seeds, plus 4 preludes (other network with custom element lists/prefixes, KROME directives, user binding energies, a KROME file that fails half-way) and repeated rendering",
+            "bound": f"3 networks x {len(seeds)} hash seeds, plus 5 preludes (other network with custom element lists/prefixes, KROME directives, user binding energies, a KROME file that fails half-way) and repeated rendering",
             "rule": "each (network, seed, prelude) rendering in a fresh interpreter is one case; sha256 of include/ src/ python/"}
 
 
